@@ -161,6 +161,10 @@ Section P.
       apply pause_spec in X as (_ & -> & _). same.
     - destruct (its_transfer_operatorship w1 c a) as [[w3 ev3]|] eqn:X; inversion F; subst.
       unfold its_transfer_operatorship in X. inv_some X. inversion X; subst. same.
+    - destruct (its_propose_operatorship w1 c a) as [[w3 ev3]|] eqn:X; inversion F; subst.
+      unfold its_propose_operatorship in X. inv_some X. inversion X; subst. same.
+    - destruct (its_accept_operatorship w1 c from) as [[w3 ev3]|] eqn:X; inversion F; subst.
+      unfold its_accept_operatorship in X. inv_some X. inversion X; subst. same.
     - destruct (get_tm w tma) as [t|]; [|same].
       destruct o; try same; destruct (tstep t (iw_led w) _) as [[t' l'] out]; same.
     - destruct (find_ip id (iw_pend w)) as [p|]; [|same].
